@@ -380,7 +380,7 @@ def evalOp (op input : String) : Option String :=
       | some q => some s!"accept:inflight={q.length}"
       | none => some "reject"
   | "httptable" =>
-    -- ops: N<a> NewConnection(a) -> obj<i>; T all connections idle out; W<i> a Write on object i fails; R<i> Read on object i
+    -- ops: N<a> NewConnection(a) -> obj<i>; T all connections idle out; W<i> a Write on object i fails; G<i> a Write on object i ends with its caller's context; R<i> Read on object i
     let ops := if input = "_" then [] else input.splitOn " "
     let stepOp (acc : Option (HttpTable.State × List String)) (op : String) : Option (HttpTable.State × List String) := do
       let (s, outs) ← acc
@@ -398,6 +398,11 @@ def evalOp (op input : String) : Option String :=
         let i ← arg
         let s1 ← HttpTable.step s (.writeFail i)
         some (s1, outs ++ [if s1.panicked then "panic" else "err"])
+      | some 'G' => do
+        -- a Write that ends with its caller's (finished) context: an error, the table is not touched
+        let i ← arg
+        let s1 ← HttpTable.step s (.writeGaveUp i)
+        some (s1, outs ++ ["err"])
       | some 'B' => do
         -- a Write whose envelope the codec rejects: an error, and the table is not touched
         let i ← arg
